@@ -2,6 +2,7 @@
   C09 (evaluator level): `callPure`, second half of the name table.
 -/
 import CklVerif.Lemmas.C09EvalNatives
+import CklVerif.Lemmas.C17EvalBase
 namespace Ckl.C09E
 open Ckl
 
@@ -20,6 +21,7 @@ theorem callPure_groupC (name : String) (args : List (String × RVal)) (d : Opti
   split at h
   all_goals first
     | (exfalso; simp only [groupC, List.mem_cons, List.mem_nil_iff, String.reduceEq, or_false, or_self] at hn; done)
+    | (exfalso; rcases callDate_some_name h with rfl | rfl | rfl <;> simp [groupC] at hn; done)
     | (cases h <;> pa_auto)
 
 set_option maxHeartbeats 400000 in
@@ -30,6 +32,7 @@ theorem callPure_groupD (name : String) (args : List (String × RVal)) (d : Opti
   split at h
   all_goals first
     | (exfalso; simp only [groupD, List.mem_cons, List.mem_nil_iff, String.reduceEq, or_false, or_self] at hn; done)
+    | (exfalso; rcases callDate_some_name h with rfl | rfl | rfl <;> simp [groupD] at hn; done)
     | (cases h <;> pa_auto)
 
 end Ckl.C09E
